@@ -105,8 +105,13 @@ func (m *Manager) SetBirthday(ns walletdb.ReadWriteBucket,
 	m.mtx.Lock()
 	defer m.mtx.Unlock()
 
+	// Update the database first; only update memory once the write
+	// succeeded so a failed write does not leave memory ahead of disk.
+	if err := putBirthday(ns, birthday); err != nil {
+		return err
+	}
 	m.birthday = birthday
-	return putBirthday(ns, birthday)
+	return nil
 }
 
 // BirthdayBlock returns the birthday block, or earliest block a key could have
